@@ -352,8 +352,18 @@ func (g *gl) valueFor(e ast.Expr, want types.Type, bs *[]glBind) string {
 	return g.expr(e, bs)
 }
 
+// `be := binary.BigEndian`: a name for the byte order, no value of the fragment
+func (g *gl) isByteOrder(e ast.Expr) bool {
+	t := g.typeOf(e)
+	n, ok := t.(*types.Named)
+	return ok && n.Obj().Pkg() != nil && n.Obj().Pkg().Path() == "encoding/binary"
+}
+
 func (g *gl) assign(x *ast.AssignStmt, c *glCtx, k glK) string {
 	var bs []glBind
+	if len(x.Rhs) == 1 && len(x.Lhs) == 1 && g.isByteOrder(x.Rhs[0]) {
+		return k(c)
+	}
 	if x.Tok != token.ASSIGN && x.Tok != token.DEFINE { // op=
 		op := token.Token(int(x.Tok) - int(token.ADD_ASSIGN) + int(token.ADD))
 		be := &ast.BinaryExpr{X: x.Lhs[0], Op: op, Y: x.Rhs[0], OpPos: x.Pos()}
